@@ -188,6 +188,22 @@ namespace Dune
      */
     ArrayList();
 
+    /**
+     * @brief Copy constructor.
+     *
+     * The chunks are copied, such that the new list
+     * shares no storage with other.
+     */
+    ArrayList(const ArrayList& other);
+
+    /**
+     * @brief Assignment operator.
+     *
+     * The chunks are copied, such that afterwards the list
+     * shares no storage with other.
+     */
+    ArrayList& operator=(const ArrayList& other);
+
   private:
 
     /**
@@ -456,6 +472,31 @@ namespace Dune
     : capacity_(0), size_(0), start_(0)
   {
     chunks_.reserve(100);
+  }
+
+  template<class T, int N, class A>
+  ArrayList<T,N,A>::ArrayList(const ArrayList& other)
+    : capacity_(other.capacity_), size_(other.size_), start_(other.start_)
+  {
+    chunks_.reserve(other.chunks_.capacity());
+    for(const auto& chunk : other.chunks_)
+      if(chunk)
+        chunks_.push_back(std::make_shared<std::array<MemberType,chunkSize_> >(*chunk));
+      else
+        chunks_.emplace_back();
+  }
+
+  template<class T, int N, class A>
+  ArrayList<T,N,A>& ArrayList<T,N,A>::operator=(const ArrayList& other)
+  {
+    if(this != &other) {
+      ArrayList copy(other);
+      chunks_.swap(copy.chunks_);
+      capacity_ = copy.capacity_;
+      size_ = copy.size_;
+      start_ = copy.start_;
+    }
+    return *this;
   }
 
   template<class T, int N, class A>
